@@ -60,6 +60,7 @@ type vpBatch struct {
 	done     chan error
 	accepted bool
 	noDone   bool
+	taken    bool // IngestRows returned nil (also true for a batch without a done channel)
 }
 
 func vpSubmit(b *BloomSearchEngine, ctx context.Context, kind int) *vpBatch {
@@ -68,13 +69,14 @@ func vpSubmit(b *BloomSearchEngine, ctx context.Context, kind int) *vpBatch {
 		bt.kind, bt.done, bt.noDone = 0, nil, true
 	}
 	var rows []map[string]any
-	switch kind {
+	switch bt.kind {
 	case 0:
 		rows = []map[string]any{vpBatchRow(false, "p")}
 	case 2:
 		rows = []map[string]any{vpBatchRow(true, "p")}
 	}
 	bt.accepted = b.IngestRows(ctx, rows, bt.done) == nil
+	bt.taken = bt.accepted
 	if bt.noDone {
 		bt.done = make(chan error, 2) // nobody can have answered it: stays empty
 		bt.accepted = false
@@ -162,6 +164,17 @@ func H_C05_lifecycle_histories_answer_every_accepted_batch_once() {
 	vpAssert(serr == nil, "C08: Stop without a deadline returned an error")
 	for _, bt := range batches {
 		vpCheckAnswered(w, bt)
+	}
+	// "no accepted batch is silently dropped": with no store failure in the whole history, every
+	// accepted row — with or without a done channel — is in a committed file once Stop returned nil
+	if w.count(evCreateFail, -1) == 0 && w.count(evUpdateFail, -1) == 0 {
+		goodRows := 0
+		for _, bt := range batches {
+			if bt.taken && bt.kind == 0 {
+				goodRows++
+			}
+		}
+		vpAssert(w.committedRows == goodRows, "C05: Stop returned nil and no store call failed, yet the committed files do not hold exactly the accepted rows (a batch was silently dropped or duplicated)")
 	}
 	// once Stop has begun, new work is refused and nothing is queued
 	late := vpSubmit(b, context.Background(), 0)
@@ -621,6 +634,7 @@ func H_C10_reaching_a_limit_hands_the_buffer_to_a_flush() {
 	w0 := make(chan error, 2)
 	waiters := []chan error{w0}
 	started := time.Now()
+	started0 := started
 	n := 1 + nondetChoice(2)
 	part := "p"
 	if nondetBool() {
@@ -655,6 +669,7 @@ func H_C10_reaching_a_limit_hands_the_buffer_to_a_flush() {
 	// not handed to a flush: the batch is buffered and every limit is still ahead
 	vpAssert(len(waiters) == 2 && waiters[1] == d, "C05: the accepted batch's waiter was not queued")
 	vpAssert(!started.IsZero(), "C10: rows are buffered but the buffer clock is not running")
+	vpAssert(started == started0, "C10: the buffer clock was restarted although older rows are still buffered (their MaxBufferedTime deadline moved)")
 	pb := bufs[part]
 	vpAssert(pb != nil, "C10: the accepted batch's partition has no buffer")
 	added := byteCount - byteCountBefore
